@@ -17,6 +17,7 @@ SCRATCH_ROOT = os.environ.get("VERIF_SCRATCH", "/root/.verif-scratch")
 CACHE = os.path.join(VERIF, ".cache")
 KANI_LIB_C = "/root/.kani/kani-0.68.0/library/kani/kani_lib.c"
 PARTIAL = False
+SELFTEST = [None]
 
 # harness file -> (repo source file it is attached to, module name)
 ATTACH = {
@@ -532,6 +533,7 @@ def write_dispatch(repo, files, hs):
 pub fn run(name: &str) -> bool {
     match name {
 %s
+%s
         _ => return false,
     }
     true
@@ -551,7 +553,7 @@ pub fn main() {
         }
     }
 }
-""" % "\n".join(arms)
+""" % ("\n".join(arms), '        "spec_selftest" => crate::core::execute::verif_ex::spec_selftest(),' if "h_ex.rs" in files else "")
     open(os.path.join(repo, "src", "verif_dispatch.rs"), "w").write(code)
     with open(os.path.join(repo, "src", "lib.rs"), "a") as fh:
         fh.write("\n#[cfg(verif_replay)]\npub mod verif_dispatch;\n")
@@ -735,6 +737,21 @@ def main():
     results = []
     try:
         write_dispatch(repo, attach, all_h)
+        selftest = None
+        if prop == "C01":
+            # oracle validation: the step definition against the repository's own test programs (native)
+            b = build_replay(repo, prop, "debug")
+            if b:
+                try:
+                    r0 = subprocess.run([b, "spec_selftest"], stdout=subprocess.PIPE, stderr=subprocess.PIPE, text=True, timeout=300)
+                    m0 = re.search(r"SPEC-SELFTEST: (.*)", r0.stdout)
+                    ok0 = "REPLAY-RESULT: PASSED" in r0.stdout and m0
+                    selftest = m0.group(1) if ok0 else "FAILED: " + (r0.stdout[-300:] + r0.stderr[-600:])
+                except subprocess.TimeoutExpired:
+                    selftest = "FAILED: timeout"
+            else:
+                selftest = "FAILED: native build failed"
+            log("[%s] step definition vs repository test programs: %s" % (prop, selftest))
         table, t_codegen = kani_codegen(repo, prop, os.path.join(d, "kout"), [h["full"] for h in sel])
         log("[%s] kani codegen %.1fs, %d harnesses compiled, %d selected (tier %s)"
             % (prop, t_codegen, len(table), len(sel), tier))
@@ -826,6 +843,9 @@ def main():
                 else:
                     broken.append("%s: %s (%s)" % (r["name"], v, r.get("detail", "")))
 
+        if selftest is not None and selftest.startswith("FAILED"):
+            broken.append("oracle validation failed - the step definition disagrees with the repository's own tests: " + selftest)
+        SELFTEST[0] = selftest
         n_must = sum(1 for h in sel if h["kind"] == "must")
         if n_must and len(artifacts) * 10 > n_must * 3:
             broken.append("%d of %d must harnesses ended in engine artifacts: too little was decided to call the run a pass" % (len(artifacts), n_must))
@@ -905,6 +925,7 @@ def write_evidence(prop, tier, seed, sel, results, violations, known_hits, broke
             machinery_problems=broken,
             known_findings=[k["text"] for _, k in known_hits],
             repo_src_digest=src_digest(),
+            oracle_validation=SELFTEST[0],
             exhaustive=False,
         ),
         assumptions=info.get("assumptions", []) + [
